@@ -606,8 +606,15 @@ fn hdr_op(o: &mut HObj, tok: &str) -> R {
             format!("{}:{}:{}", a as u8, b as u8, if u { "ok" } else { "err" })
         }
         ["clone"] => {
+            // through clone() and then clone_from() into an object of the same kind that has seen other traffic
             let c = o.clone();
-            *o = c;
+            let mut t = o.clone();
+            let mut junk = [0x5au8; 7];
+            t.enc(&mut junk, false);
+            let mut junk = [0xa5u8; 3];
+            t.dec(&mut junk, false);
+            t.clone_from(&c);
+            *o = t;
             "ok".into()
         }
         ["pr"] => o.probe(),
@@ -707,6 +714,19 @@ fn run_op(a: &[&str]) -> R {
                     let po = nx.partial_cmp(&ny) == Some(nx.cmp(&ny));
                     if !po {
                         return Ok("DISAGREE partial_cmp".into());
+                    }
+                    // a copy made with clone() or clone_from() (into a value that held something else) IS the original:
+                    // same text, equal, same order, same hash
+                    let mut z = nx.clone();
+                    z.clone_from(&ny);
+                    let zr: &str = z.as_ref();
+                    let yr: &str = ny.as_ref();
+                    if zr != yr || z != ny || z.cmp(&ny) != std::cmp::Ordering::Equal || hash_of(&z) != hash_of(&ny) {
+                        return Ok("DISAGREE clone_from".into());
+                    }
+                    let c = nx.clone();
+                    if c != nx || hash_of(&c) != hash_of(&nx) {
+                        return Ok("DISAGREE clone".into());
                     }
                     format!("{} {} {}", o, (nx == ny) as u8, (hash_of(&nx) == hash_of(&ny)) as u8)
                 }
